@@ -525,6 +525,20 @@ class DictFlow:
         self._escape_uses(st, state)
         return [state]
 
+    def _const_truth(self, test: ast.expr) -> Optional[bool]:
+        """Truth of a test that only depends on parameters bound to constants at this call (a helper's `if extra:` with extra=None)."""
+        if isinstance(test, ast.UnaryOp) and isinstance(test.op, ast.Not):
+            v = self._const_truth(test.operand)
+            return None if v is None else not v
+        if isinstance(test, ast.Name) and test.id in self.env and isinstance(self.env[test.id], ast.Constant):
+            return bool(self.env[test.id].value)  # type: ignore[attr-defined]
+        if isinstance(test, ast.Compare) and len(test.ops) == 1 and isinstance(test.ops[0], (ast.Is, ast.IsNot)) and isinstance(test.left, ast.Name) \
+                and test.left.id in self.env and isinstance(self.env[test.left.id], ast.Constant) and isinstance(test.comparators[0], ast.Constant) \
+                and test.comparators[0].value is None:
+            is_none = self.env[test.left.id].value is None  # type: ignore[attr-defined]
+            return is_none if isinstance(test.ops[0], ast.Is) else not is_none
+        return None
+
     def _kill_written(self, stmts: Sequence[ast.stmt], state: Dict[str, object]) -> None:
         """Names (re)bound or possibly mutated anywhere in stmts become UNKNOWN (loops, exception handlers)."""
         for st in stmts:
@@ -545,8 +559,11 @@ class DictFlow:
                 if isinstance(st, ast.If):
                     self._visit_exprs(st.test, state)
                     self._escape_uses(st.test, state)
-                    nxt += self._block(st.body, [dict(state)])
-                    nxt += self._block(st.orelse, [dict(state)]) if st.orelse else [state]
+                    truth = self._const_truth(st.test)
+                    if truth is not False:
+                        nxt += self._block(st.body, [dict(state)])
+                    if truth is not True:
+                        nxt += self._block(st.orelse, [dict(state)]) if st.orelse else [state]
                 elif isinstance(st, (ast.For, ast.AsyncFor, ast.While)):
                     hdr = st.iter if isinstance(st, (ast.For, ast.AsyncFor)) else st.test
                     self._kill_written(st.body, state)
